@@ -984,7 +984,7 @@ func floodsC13(thorough bool) []c13Case {
 						}
 						if lim == def && ids*per > 2048 {
 							// every buffered chunk pins a whole 64 KiB receive buffer: more than 2048 chunks would
-							// bring the executor near its 4 GiB address-space limit and make the outcome depend on the allocator
+							// bring the executor near its 2 GiB address-space limit and make the outcome depend on the allocator
 							continue
 						}
 						pend := []bool{false}
@@ -1168,11 +1168,15 @@ func mainC13() {
 		fmt.Println("cases", total)
 		return
 	}
-	deaths := evid.Sharded(r, 4<<30, func(s evid.ShardInfo, w *evid.Run) {
+	deaths := evid.Sharded(r, 2<<30, func(s evid.ShardInfo, w *evid.Run) {
 		pl := &pool{prop: "C13"}
 		defer pl.close()
 		enumerateC13(thorough, func(idx int64, c c13Case) {
 			if !s.Mine(idx) {
+				return
+			}
+			if pl.tooManyDeaths(150) {
+				w.Capped("worker stopped after 150 executor deaths; the remaining cases of this shard were not run")
 				return
 			}
 			t0 := time.Now()
@@ -1220,7 +1224,7 @@ func mainC13() {
 		"hang detection: a 25 s watchdog after the peer closed (normal cost: microseconds), or the positive observation that the dispatcher is parked behind rcvLocker with no open() running (an absorbing state)",
 		"memory bound judged (hook VerifChunkStats, uasc/export_verif_chunks.go): bytes buffered for one request id <= MaxMessageSize + one chunk; number of request ids with buffered chunks <= MaxChunkCount (server kind) / number of requests awaiting a response (client kind); with MaxMessageSize or MaxChunkCount = 0 (unlimited) retained chunks are reported as not_judged",
 		"hostile frames in the Sign/SignAndEncrypt contexts are not protected with the channel keys (forging valid protection is C09/C10 territory); they exercise everything up to and including verifyAndDecrypt",
-		"floods above 48 MiB on the wire per case, and floods of more than 2048 chunks with 64 KiB buffers (pinned memory would approach the executor's 4 GiB limit), are left out",
+		"floods above 48 MiB on the wire per case, and floods of more than 2048 chunks with 64 KiB buffers (pinned memory would approach the executor's 2 GiB limit), are left out",
 		"that readChunk copies the policy URI of an unverified OPN frame into the channel configuration is counted as an observation, not as a violation: the statement does not speak about configuration")
 	r.Finish()
 }
